@@ -118,5 +118,25 @@ theorem P0_reports (v : Variant) (E q : ℝ) : Reports v P0 E q 1 F0 14 :=
 /-- the unit cube with an atom whose `Zatom` is not a legal subscript of the stack arrays -/
 def badZ : Crystal ℝ := ⟨1, 1, 1, 90, 90, 90, 1, [⟨120, 1, 0, 0, 0⟩]⟩
 
+/-- at 10 keV the unit cube has a (1,0,0) reflection: `Q` answers -/
+theorem cube_hQ (v : Variant) :
+    Q_scattering_amplitude v (some cube) 10 1 0 0 1 Slot.empty = .ok (qval cube 10 1 0 0 1, Slot.empty) := by
+  have hr : KEV2ANGST / 10 ≤ 2 * dval cube 1 0 0 := by
+    have := cube_dval_ge_one; unfold KEV2ANGST; norm_num; linarith
+  exact q_valid v cube_valid (by norm_num) (Or.inr cube_smallMiller) (by decide) hr 1 Slot.empty
+
+theorem cube_reports (v : Variant) (E q : ℝ) :
+    ∀ atom ∈ cube.atoms, (0 ≤ atom.Zatom ∧ atom.Zatom < 120) ∧ Reports v P0 E q 1 F0 atom.Zatom := by
+  intro atom h
+  simp only [cube, List.mem_singleton] at h
+  subst h
+  exact ⟨by decide, P0_reports v E q⟩
+
+/-- the unit cube with a stored volume that agrees with its cell (`volume = √(det G)`) -/
+noncomputable def cubeV : Crystal ℝ := { cube with volume := Spec.volume cube }
+
+/-- elemental functions with `Fii = 0` exactly (as the library's `Fii` at the first knot of its table) -/
+def Pzero : Elem ℝ := ⟨fun _ _ s => .ok (8, s), fun _ _ s => .ok (1, s), fun _ _ s => .ok (0, s)⟩
+
 end C13
 end Xrl
